@@ -46,6 +46,8 @@ type c17Case struct {
 	// CloseWhileDown: at the end the peer drops the connection and refuses new ones, the session is closed
 	// while it is between connections, then the peer accepts again (costs > 1 s of back-off, so it is drawn rarely)
 	CloseWhileDown bool `json:"close_while_down,omitempty"`
+	// SrcAddr: the session is configured with a source address (127.0.0.1, as net.ParseIP returns it)
+	SrcAddr bool `json:"src_addr,omitempty"`
 }
 
 var c17Prefixes = []string{"10.9.0.1/32", "10.9.0.2/32", "10.9.1.0/24", "10.9.2.128/25", "10.9.0.0/16"}
@@ -87,6 +89,7 @@ func genC17(rt *rapid.T) c17Case {
 		c.Ops = append(c.Ops, op)
 	}
 	c.CloseWhileDown = rapid.IntRange(0, 11).Draw(rt, "closeWhileDown") == 0
+	c.SrcAddr = rapid.IntRange(0, 2).Draw(rt, "srcAddr") == 0
 	return c
 }
 
@@ -234,6 +237,10 @@ func (p *c17Peer) handle(c *c17Conn) {
 					switch a.Type {
 					case 2:
 						r.Path = fmt.Sprintf("% x", a.Val)
+					case 3:
+						if len(a.Val) != 4 || !net.IP(a.Val).Equal(net.IPv4(127, 0, 0, 1)) {
+							c.errs = append(c.errs, fmt.Sprintf("NEXT_HOP % x is not the speaker's address on this connection (127.0.0.1)", a.Val))
+						}
 					case 5:
 						if len(a.Val) == 4 {
 							r.LP, r.HasLP = binary.BigEndian.Uint32(a.Val), true
@@ -326,8 +333,13 @@ func runC17(c c17Case, tr *vw.Trace) *vw.Violation {
 	port := ln.Addr().(*net.TCPAddr).Port
 	hold := 90 * time.Second
 	sm := NewSessionManager(log.NewNopLogger())
-	sess, err := sm.NewSession(log.NewNopLogger(), bgp.SessionParameters{PeerAddress: "127.0.0.1", PeerPort: uint16(port), MyASN: speakerASN, PeerASN: peerASN,
-		RouterID: net.ParseIP("1.2.3.4"), HoldTime: &hold, CurrentNode: "node0", SessionName: "peer"})
+	params := bgp.SessionParameters{PeerAddress: "127.0.0.1", PeerPort: uint16(port), MyASN: speakerASN, PeerASN: peerASN,
+		RouterID: net.ParseIP("1.2.3.4"), HoldTime: &hold, CurrentNode: "node0", SessionName: "peer"}
+	if c.SrcAddr {
+		params.SourceAddress = net.ParseIP("127.0.0.1")
+		tr.Class("session-with-source-address")
+	}
+	sess, err := sm.NewSession(log.NewNopLogger(), params)
 	if err != nil {
 		ln.Close()
 		return vw.Violationf("new-session-error", "%v", err)
@@ -534,4 +546,18 @@ func TestVerifC17Session(t *testing.T) {
 		Assumptions: []string{"real time over loopback TCP: convergence normally takes < 5 ms, the wait bound is 3 s + 10 s grace; a verdict by timeout is labelled liveness-by-timeout",
 			"timing of changes relative to the sender loop is sampled by the OS scheduler, not enumerated"}},
 		genC17, runC17)
+}
+
+// C16 over a whole session: every message of the stream a peer receives from the real session (with and
+// without a configured source address) must decode, and NEXT_HOP must be the speaker's address.
+func TestVerifC16Session(t *testing.T) {
+	vw.Run(t, vw.Options{Property: "C16", Engine: "session-stream",
+		Rule: "the C17 loopback scenario (real NewSession / connect / sendUpdates against a scripted peer) with 1..4 route sets and 2..10 actions, half of the sessions configured with a source address: the peer decodes every message with the independent RFC 4271 decoder and checks NEXT_HOP against the connection's local address; non-trivial = >=1 reconnect and a withdraw or attribute-only change",
+		Assumptions: []string{"real time over loopback TCP as in the C17 loopback engine"}},
+		func(rt *rapid.T) c17Case {
+			c := genC17(rt)
+			c.SrcAddr = rapid.Bool().Draw(rt, "srcAddr16")
+			c.CloseWhileDown = false
+			return c
+		}, runC17)
 }
